@@ -75,7 +75,7 @@ func (x *Exec) renderScript(as []*Term, neg *Term, getVals []*Term) string {
 	for _, v := range getVals {
 		v.symbols(used, seen)
 	}
-	order := []string{"str", "substr", "mkstr", "concat", "strcmp", "prefix", "alloc"}
+	order := []string{"str", "substr", "mkstr", "concat", "strcmp", "prefix", "indexbyte", "alloc"}
 	var axText strings.Builder
 	for _, g := range order {
 		if !on[g] {
